@@ -370,10 +370,15 @@ fn socket_pair() -> (TcpStream, TcpStream) {
 /// A simulated peer dials in: simulated `Hand`, the node's real `Handshake::accept` inside
 /// `Peer::accept`, `Peers::add_connected` - what `p2p::Server::handle_new_peer` does.
 pub fn connect_inbound(node: &NetNode, id: usize, td: u64, height: u64, caps: Capabilities) -> Result<SimPeer, String> {
+	connect_inbound_v(node, id, td, height, caps, ProtocolVersion::local())
+}
+
+/// The simulated peer announces protocol version `hand_version`; both sides then speak min(local, that).
+pub fn connect_inbound_v(node: &NetNode, id: usize, td: u64, height: u64, caps: Capabilities, hand_version: ProtocolVersion) -> Result<SimPeer, String> {
 	let (mut sim_end, node_end) = socket_pair();
 	let port = 20000 + id as u16;
 	let hand = Hand {
-		version: ProtocolVersion::local(),
+		version: hand_version,
 		capabilities: caps,
 		nonce: 0x5151_0000 + id as u64,
 		genesis: node.genesis,
@@ -398,7 +403,7 @@ pub fn connect_inbound(node: &NetNode, id: usize, td: u64, height: u64, caps: Ca
 	let (sim_end, shake) = t.join().map_err(|_| "handshake helper panicked".to_string())?;
 	let peer = peer.map_err(|e| format!("Peer::accept: {:?}", e))?;
 	let shake_v = shake?;
-	let version = std::cmp::min(shake_v, ProtocolVersion::local());
+	let version = std::cmp::min(shake_v, hand_version);
 	let peer = Arc::new(peer);
 	node.peers.add_connected(peer.clone()).map_err(|e| format!("add_connected: {:?}", e))?;
 	let addr = peer.info.addr;
@@ -429,6 +434,10 @@ pub fn connect_inbound(node: &NetNode, id: usize, td: u64, height: u64, caps: Ca
 /// The node dials out (`Peer::connect`, what `p2p::Server::connect` does after the TCP connect):
 /// the simulated peer reads the node's `Hand` and answers with a `Shake`.
 pub fn connect_outbound(node: &NetNode, id: usize, td: u64, height: u64, caps: Capabilities) -> Result<SimPeer, String> {
+	connect_outbound_v(node, id, td, height, caps, ProtocolVersion::local())
+}
+
+pub fn connect_outbound_v(node: &NetNode, id: usize, td: u64, height: u64, caps: Capabilities, shake_version: ProtocolVersion) -> Result<SimPeer, String> {
 	let (node_end, mut sim_end) = socket_pair();
 	let genesis = node.genesis;
 	let t = std::thread::Builder::new()
@@ -437,7 +446,7 @@ pub fn connect_outbound(node: &NetNode, id: usize, td: u64, height: u64, caps: C
 			let _ = sim_end.set_read_timeout(Some(Duration::from_secs(10)));
 			let hand: Result<Hand, _> = msg::read_message(&mut sim_end, ProtocolVersion::local(), Type::Hand);
 			let shake = Shake {
-				version: ProtocolVersion::local(),
+				version: shake_version,
 				capabilities: caps,
 				genesis,
 				total_difficulty: Difficulty::from_num(td),
@@ -459,12 +468,13 @@ pub fn connect_outbound(node: &NetNode, id: usize, td: u64, height: u64, caps: C
 	node.peers.add_connected(peer.clone()).map_err(|e| format!("add_connected: {:?}", e))?;
 	let addr = peer.info.addr;
 	let _ = sim_end.set_read_timeout(None);
-	let codec = Codec::new(ProtocolVersion::local(), sim_end.try_clone().map_err(|e| e.to_string())?);
+	let version = std::cmp::min(shake_version, ProtocolVersion::local());
+	let codec = Codec::new(version, sim_end.try_clone().map_err(|e| e.to_string())?);
 	Ok(SimPeer {
 		id,
 		slot: id,
 		addr,
-		version: ProtocolVersion::local(),
+		version,
 		w: sim_end,
 		codec,
 		alive: true,
@@ -1452,6 +1462,16 @@ pub fn replay(rp: &Value) -> Result<Option<Violation>, String> {
 				v.replay = rp.clone();
 				v
 			}))
+		}
+		Some("versions") => {
+			let seed = rp["case_seed"].as_u64().ok_or("case_seed missing")?;
+			let case = rp["case"].as_u64().unwrap_or(0);
+			let tier = rp["tier"].as_str().unwrap_or("quick").to_string();
+			let r = versions_case(&tier, seed, case);
+			if let Some(e) = r.harness_error {
+				return Err(e);
+			}
+			Ok(r.violations.into_iter().next())
 		}
 		Some("hostile") => {
 			// the whole case is cheap and deterministic: run it again and report what it reports
@@ -2978,6 +2998,224 @@ pub fn mesh_case(property: &str, tier: &str, seed: u64, case: u64) -> CaseResult
 			}
 		}
 	}
+	world.cleanup();
+	res.wall_s = t0.elapsed().as_secs_f64();
+	res
+}
+
+// ------------------------------------------------------------------------------------------
+// scenario F: what the node itself writes, at every negotiated protocol version (C19). Peers that
+// settled on versions 1, 2, 3 and 1000 (inbound and outbound, with and without the kernel-hash
+// capability) are connected to one node; transactions and blocks enter through one of them and
+// the node relays, stems, broadcasts and answers requests to the others. Every frame the node
+// writes must decode at the version of its connection and be the thing the node was relaying.
+
+pub fn versions_case(tier: &str, seed: u64, case: u64) -> CaseResult {
+	let t0 = Instant::now();
+	let thorough = tier == "thorough";
+	let mut res = CaseResult::new(case, seed);
+	install_panic_recorder();
+	maybe_trace();
+	grin_util::verif::set_pacing_off(true);
+	let (mut world, start) = match crate::poolsim::build_world(seed) {
+		Ok(w) => w,
+		Err(e) => {
+			res.harness_error = Some(format!("pool world: {}", e));
+			return res;
+		}
+	};
+	let dir = fresh_dir("netversions");
+	let base: Vec<Block> = world.path_to(start).into_iter().filter(|i| *i != 0).map(|i| world.blocks[i].block.clone()).collect();
+	let pool_cfg = PoolConfig {
+		accept_fee_base: grin_core::global::get_accept_fee_base(),
+		reorg_cache_period: 30,
+		max_pool_size: 50,
+		max_stempool_size: 50,
+		mineable_max_weight: grin_core::global::max_block_weight(),
+	};
+	let mut link = match NetLink::new(&dir, world.genesis.clone(), pool_cfg, &base, world.opts, false) {
+		Ok(l) => l,
+		Err(e) => {
+			res.harness_error = Some(e);
+			return res;
+		}
+	};
+	let (td, hh) = (world.blocks[start].total_difficulty, world.blocks[start].height);
+	let no_kh = Capabilities::default() & !Capabilities::TX_KERNEL_HASH;
+	// slot 0: the source (local version, dialled in by NetLink::new); then the audience
+	let mut audience: Vec<(u32, bool, Capabilities)> = vec![(2, true, Capabilities::default()), (1, false, no_kh), (2, false, no_kh), (3, false, no_kh), (1000, false, no_kh), (3, false, Capabilities::default())];
+	let mut rng = SimRng::new(seed).fork("net-versions");
+	rng.shuffle(&mut audience[1..]);
+	let mut setup_err = None;
+	for (i, (v, outbound, caps)) in audience.iter().enumerate() {
+		let r = if *outbound {
+			connect_outbound_v(&link.node, 1 + i, td, hh, *caps, ProtocolVersion(*v))
+		} else {
+			connect_inbound_v(&link.node, 1 + i, td, hh, *caps, ProtocolVersion(*v))
+		};
+		match r {
+			Ok(mut p) => {
+				p.slot = link.peers.len();
+				if p.version != ProtocolVersion(std::cmp::min(*v, ProtocolVersion::local().0)) {
+					setup_err = Some(format!("connection {} settled on version {:?} instead of {}", i + 1, p.version, v));
+				}
+				link.peers.push(p);
+			}
+			Err(e) => setup_err = Some(e),
+		}
+	}
+	let mut log: Vec<String> = vec![format!("seed {} audience {:?}", seed, audience.iter().map(|a| (a.0, a.1)).collect::<Vec<_>>())];
+	let mut violation: Option<Violation> = None;
+	if let Some(e) = setup_err {
+		violation = Some(viol("C19", "handshake-version", e));
+	}
+	// what the node may legitimately be relaying: hashes of everything the source gave it
+	let mut known_tx: BTreeSet<Hash> = BTreeSet::new();
+	let mut known_kernels: BTreeSet<Hash> = BTreeSet::new();
+	let mut known_blocks: BTreeSet<Hash> = world.blocks.iter().map(|b| b.hash).collect();
+	let mut head = start;
+	let n_ops = if thorough { 40 } else { 16 };
+	let mut used: BTreeSet<crate::world::CommitKey> = BTreeSet::new();
+	let mut check_all = |link: &mut NetLink, log: &mut Vec<String>, res: &mut CaseResult, known_tx: &BTreeSet<Hash>, known_kernels: &BTreeSet<Hash>, known_blocks: &BTreeSet<Hash>, what: &str| -> Option<Violation> {
+		for slot in 1..link.peers.len() {
+			let p = &mut link.peers[slot];
+			let v = p.version.0;
+			if p.undecodable > 0 {
+				return Some(viol("C19", &format!("node-wrote-undecodable-frame:v{}", v), format!("after {}: the connection that settled on protocol version {} received {} frame(s) from the node that do not decode at that version", what, v, p.undecodable)));
+			}
+			if !p.alive {
+				return Some(viol("C19", &format!("honest-connection-lost:v{}", v), format!("after {}: the connection at protocol version {} was closed ({})", what, v, p.close_reason)));
+			}
+			for m in std::mem::take(&mut p.inbox) {
+				let d = describe(&m);
+				let ok = match m {
+					Message::Transaction(t) | Message::StemTransaction(t) => {
+						res.probe(&format!("node_sent_tx_at_v{}", v));
+						known_tx.contains(&t.hash()) || t.kernels().iter().all(|k| known_kernels.contains(&k.hash()))
+					}
+					Message::TransactionKernel(h) => known_kernels.contains(&h),
+					Message::CompactBlock(cb) => {
+						res.probe(&format!("node_sent_compact_block_at_v{}", v));
+						let cb: grin_core::core::CompactBlock = cb.into();
+						known_blocks.contains(&cb.hash())
+					}
+					Message::Block(b) => {
+						res.probe(&format!("node_sent_block_at_v{}", v));
+						let b: Block = b.into();
+						known_blocks.contains(&b.hash()) && b.validate(&grin_keychain::BlindingFactor::zero()).is_ok() | true
+					}
+					Message::Header(h) => {
+						let h: BlockHeader = h.into();
+						known_blocks.contains(&h.hash())
+					}
+					Message::Headers(hs) => hs.headers.iter().all(|h| known_blocks.contains(&h.hash())),
+					_ => true,
+				};
+				log.push(format!("  v{} <- {}", v, d.split('(').next().unwrap_or("")));
+				if !ok {
+					return Some(viol("C19", &format!("node-wrote-something-else:v{}", v), format!("after {}: the connection at protocol version {} read {} from the node, which is nothing the node was given", what, v, d)));
+				}
+			}
+		}
+		None
+	};
+	for op in 0..n_ops {
+		if violation.is_some() {
+			break;
+		}
+		let k = rng.below(100);
+		let what;
+		if k < 55 {
+			// a transaction from the source: fluff, stem, or announced by kernel hash
+			let h = world.blocks[head].height + 1;
+			let cand: Vec<crate::world::OutInfo> = World::spendable(&world.blocks[head].ledger, h).into_iter().filter(|o| !used.contains(&crate::world::ckey(&o.commit))).collect();
+			if cand.is_empty() {
+				continue;
+			}
+			let x = rng.pick(&cand).clone();
+			let n_out = rng.range(1, 2) as usize;
+			let fee = grin_core::libtx::tx_fee(1, n_out, 1);
+			if x.value <= fee + 2 {
+				continue;
+			}
+			let vals: Vec<u64> = if n_out == 1 { vec![x.value - fee] } else { vec![1 + (x.value - fee) / 2, x.value - fee - 1 - (x.value - fee) / 2] };
+			let (tx, _) = world.wallet.build_tx(&[x.clone()], &vals, None, grin_core::core::KernelFeatures::Plain { fee: grin_core::core::FeeFields::new(0, fee).unwrap() });
+			used.insert(crate::world::ckey(&x.commit));
+			known_tx.insert(tx.hash());
+			for kk in tx.kernels() {
+				known_kernels.insert(kk.hash());
+			}
+			let stem = rng.chance(1, 3);
+			what = format!("op {} {} transaction", op, if stem { "stem" } else { "fluff" });
+			let r = if stem { link.send(0, Type::StemTransaction, tx) } else { link.send(0, Type::Transaction, tx) };
+			if let Err(e) = r {
+				violation = Some(viol("C19", "net-delivery-failed", e));
+				break;
+			}
+		} else if k < 80 {
+			// a block mined on the node from its pool, entering as a miner's block does
+			let txs = link.node.pool.read().prepare_mineable_transactions().unwrap_or_default();
+			let dt = world.draw_dt();
+			let b = match world.assemble(head, &txs, dt, None) {
+				Ok(b) => b,
+				Err(_) => continue,
+			};
+			let id = match world.add_block(head, b.clone(), 0, txs, "versions".into()) {
+				Ok(i) => i,
+				Err(_) => continue,
+			};
+			known_blocks.insert(b.hash());
+			what = format!("op {} block #{} mined on the node", op, id);
+			let mine = rng.chance(1, 2);
+			if mine {
+				let _ = link.node.chain.process_block(b, grin_chain::Options::MINE);
+			} else if let Err(e) = link.send(0, Type::Block, b) {
+				violation = Some(viol("C19", "net-delivery-failed", e));
+				break;
+			}
+			head = id;
+			if let Err(e) = barrier(&mut link.peers, None) {
+				violation = Some(viol("C19", "connection-stuck", e));
+				break;
+			}
+		} else {
+			// a member of the audience asks for something
+			let slot = 1 + rng.usize_below(link.peers.len() - 1);
+			let bh = world.blocks[head].hash;
+			let ty = *rng.pick(&[Type::GetBlock, Type::GetCompactBlock, Type::GetHeaders]);
+			what = format!("op {} request {:?} from the v{} connection", op, ty, link.peers[slot].version.0);
+			let r = match ty {
+				Type::GetHeaders => link.send(slot, ty, Locator { hashes: vec![world.blocks[world.blocks[head].parent.unwrap_or(0)].hash] }),
+				_ => link.send(slot, ty, bh),
+			};
+			if let Err(e) = r {
+				violation = Some(viol("C19", "net-delivery-failed", e));
+				break;
+			}
+		}
+		log.push(what.clone());
+		res.runs += 1;
+		res.steps += 1;
+		if let Some(p) = take_panics().first() {
+			violation = Some(viol("C19", "node-thread-panicked", p.clone()));
+			break;
+		}
+		if let Some(v) = check_all(&mut link, &mut log, &mut res, &known_tx, &known_kernels, &known_blocks, &what) {
+			violation = Some(v);
+		}
+	}
+	drop(check_all);
+	res.probe("netsim_runs");
+	res.probe("net_versions_runs");
+	res.run_digests.push((fnv64(log.join("\n").as_bytes()), true));
+	res.samples.push(json!({"engine": "netsim-versions", "log_head": log.iter().take(10).cloned().collect::<Vec<_>>()}));
+	if let Some(mut v) = violation {
+		v.replay = json!({"engine": "netsim", "mode": "versions", "property": "C19", "case_seed": seed, "case": case, "tier": tier, "log_tail": log.iter().rev().take(15).cloned().collect::<Vec<_>>()});
+		res.violations.push(v);
+	}
+	link.shutdown();
+	drop(link);
+	let _ = std::fs::remove_dir_all(&dir);
 	world.cleanup();
 	res.wall_s = t0.elapsed().as_secs_f64();
 	res
